@@ -1,1 +1,548 @@
+import SpoxModel.Model.Singleton
+import SpoxModel.Lemmas.Singleton
 /-! Property theorems for C05 (only property-level statements and non-vacuity examples live here). -/
+set_option linter.unusedSimpArgs false
+set_option linter.unusedVariables false
+namespace C05
+open Sing
+
+/-! ### The singleton model is the hand-written node up to an injective renaming -/
+
+/-- node part: renaming the node emitted under any good naming gives the singleton node -/
+theorem node_alpha (nm : Ref → String) (c : Call) (hwf : WF c) (hg : GoodNames nm c) :
+    renameNode (sigmaOf nm c) (emitNode nm c) = emitNode c.singName c := by
+  have hin : (c.flat.map (fun p => optName nm p.2)).map (sigmaOf nm c)
+      = c.flat.map (fun p => optName c.singName p.2) := by
+    rw [List.map_map]
+    apply List.map_congr_left
+    intro p hp
+    obtain ⟨k, ov⟩ := p
+    cases ov with
+    | none => exact sigmaOf_empty nm c hg
+    | some v => exact sigmaOf_nm nm c hg _ (inp_ref c k v ((mem_inPairs c k v).mpr hp))
+  have hout : (c.outPairs.map (fun p => nm (Ref.out p.2))).map (sigmaOf nm c)
+      = c.outPairs.map (fun p => c.singName (Ref.out p.2)) := by
+    rw [List.map_map]
+    apply List.map_congr_left
+    intro p hp
+    exact sigmaOf_nm nm c hg _ (out_ref c p.1 p.2 hp)
+  have hin0 : ∀ x ∈ c.flat.map (fun p => optName nm p.2), (sigmaOf nm c x = "" ↔ x = "") := by
+    intro x hx
+    obtain ⟨p, hp, rfl⟩ := List.mem_map.mp hx
+    obtain ⟨k, ov⟩ := p
+    cases ov with
+    | none => simp [optName, sigmaOf_empty nm c hg]
+    | some v =>
+      have hr := inp_ref c k v ((mem_inPairs c k v).mpr hp)
+      simp only [optName]
+      rw [sigmaOf_nm nm c hg _ hr]
+      constructor
+      · intro h; exact absurd h (singName_ne c hwf _ hr)
+      · intro h; exact absurd h (hg.ne _ hr)
+  have hout0 : ∀ x ∈ c.outPairs.map (fun p => nm (Ref.out p.2)), (sigmaOf nm c x = "" ↔ x = "") := by
+    intro x hx
+    obtain ⟨p, hp, rfl⟩ := List.mem_map.mp hx
+    have hr := out_ref c p.1 p.2 hp
+    rw [sigmaOf_nm nm c hg _ hr]
+    constructor
+    · intro h; exact absurd h (singName_ne c hwf _ hr)
+    · intro h; exact absurd h (hg.ne _ hr)
+  simp only [renameNode, emitNode]
+  rw [← trim_map _ _ _ hin0, ← trim_map _ _ _ hout0, hin, hout]
+
+/-- a key of a present input is read by the singleton node iff it is the name of its Var,
+    i.e. iff it is the first key under which the Var was passed -/
+theorem key_used_iff (c : Call) (hwf : WF c) (k : String) (v : Nat) (h : (k, v) ∈ c.inPairs) :
+    (emitNode c.singName c).inputs.contains k = (firstKey c.items (Ref.inp v) == some k) := by
+  have hitem := (inp_mem_items c k v).mpr h
+  have hkne : k ≠ "" := by
+    intro he; apply hwf.nonempty; rw [← he]; exact List.mem_map.mpr ⟨(k, Ref.inp v), hitem, rfl⟩
+  rw [Bool.eq_iff_iff]
+  simp only [List.contains_eq_mem, decide_eq_true_eq, beq_iff_eq, emitNode]
+  constructor
+  · intro hm
+    have hm' := mem_trim_sub _ _ _ hm
+    obtain ⟨p, hp, he⟩ := List.mem_map.mp hm'
+    obtain ⟨k', ov⟩ := p
+    cases ov with
+    | none => exact absurd he.symm hkne
+    | some v' =>
+      simp only [optName] at he
+      have hp' := (mem_inPairs c k' v').mpr hp
+      have hr' := inp_ref c k' v' hp'
+      obtain ⟨k2, hk2, hs2, hm2⟩ := singName_spec c _ hr'
+      rw [hs2] at he
+      subst he
+      have : Ref.inp v' = Ref.inp v := key_det c.items hwf.nodup k2 _ _ hm2 hitem
+      rw [← this]; exact hk2
+  · intro hf
+    apply mem_trim_of_ne _ _ _ _ hkne
+    refine List.mem_map.mpr ⟨(k, some v), (mem_inPairs c k v).mp h, ?_⟩
+    simp only [optName]
+    exact (first_iff c hwf k _ hitem).mp hf
+
+/-- **singleton_alpha (model form)**: after dropping the graph inputs / initializers the node does
+    not read (the extra key of a Var used in several slots), the singleton model *is* the hand-built
+    model — same node, one value info carrying each distinct Var's type, one initializer carrying
+    each known constant, placeholder outputs, the operator's own opset import — renamed by `σ`. -/
+theorem singleton_prune_eq (nm : Ref → String) (c : Call) (hwf : WF c) (hg : GoodNames nm c) :
+    prune (singleton c) = renameModel (sigmaOf nm c) (handModel nm c) := by
+  have hnode := node_alpha nm c hwf hg
+  have hsig : ∀ p ∈ c.distinctIn, sigmaOf nm c (nm (Ref.inp p.2)) = p.1 := by
+    intro p hp
+    have hmem := (List.mem_filter.mp hp).1
+    have hfirst := (List.mem_filter.mp hp).2
+    simp only [beq_iff_eq] at hfirst
+    rw [sigmaOf_nm nm c hg _ (inp_ref c p.1 p.2 hmem)]
+    exact (first_iff c hwf p.1 _ ((inp_mem_items c p.1 p.2).mpr hmem)).mp hfirst
+  have hfilter : c.inPairs.filter (fun p => (emitNode c.singName c).inputs.contains p.1) = c.distinctIn := by
+    unfold Call.distinctIn
+    apply filter_congr_mem
+    intro p hp
+    exact key_used_iff c hwf p.1 p.2 hp
+  simp only [prune, Sing.singleton, renameModel, handModel]
+  congr 1
+  · exact hnode.symm
+  · -- graph inputs
+    rw [filter_map_comm, List.map_map]
+    simp only []
+    rw [hfilter]
+    apply List.map_congr_left
+    intro p hp
+    simp only [Function.comp, hsig p hp]
+  · -- initializers
+    rw [filter_filterMap_comm (fun (p : String × Nat) => (c.info p.2).val.map (fun v => (p.1, v)))
+      (fun (q : String × String) => (emitNode c.singName c).inputs.contains q.1)
+      (fun (p : String × Nat) => (emitNode c.singName c).inputs.contains p.1)]
+    · rw [hfilter, List.map_filterMap]
+      apply filterMap_congr_mem
+      intro p hp
+      cases (c.info p.2).val with
+      | none => rfl
+      | some v => simp [hsig p hp]
+    · intro a b hab
+      cases hv : (c.info a.2).val with
+      | none => simp [hv] at hab
+      | some v => simp [hv] at hab; rw [← hab]
+  · -- graph outputs
+    rw [List.map_map]
+    apply List.map_congr_left
+    intro p hp
+    simp only [Function.comp]
+    rw [sigmaOf_nm nm c hg _ (out_ref c p.1 p.2 hp)]
+    exact (singName_out c p.1 p.2 hp).symm
+
+/-- **singleton_alpha**: for every call and every good naming `nm` of its values (the names a build
+    would use, or the names of a hand-written node) there is a renaming `σ`, injective on the distinct
+    values of the call and fixing the empty name, with `rename σ (emitNode nm call) = (singleton call).node`;
+    the value info attached to the name of every present input Var carries exactly that Var's type, the
+    initializer exactly its known constant; any other graph input / initializer is not read by the
+    node; the opset import is the operator's own `(domain, version)`. Holds in every calling form:
+    omitted optionals, variadics, several outputs, one Var in several slots. -/
+theorem singleton_alpha (nm : Ref → String) (c : Call) (hwf : WF c) (hg : GoodNames nm c) :
+    ∃ σ : String → String,
+      σ "" = "" ∧
+      (∀ r1 ∈ c.refs, ∀ r2 ∈ c.refs, σ (nm r1) = σ (nm r2) → r1 = r2) ∧
+      renameNode σ (emitNode nm c) = (singleton c).node ∧
+      (singleton c).nodeName = "_this_" ∧
+      (∀ k v, (k, v) ∈ c.inPairs →
+        (σ (nm (Ref.inp v)), (c.info v).ty) ∈ (singleton c).graphInputs ∧
+        (∀ a, (c.info v).val = some a → (σ (nm (Ref.inp v)), a) ∈ (singleton c).inits)) ∧
+      (∀ k t, (k, t) ∈ (singleton c).graphInputs → (singleton c).node.inputs.contains k = true →
+        ∃ v, (k, v) ∈ c.inPairs ∧ k = σ (nm (Ref.inp v)) ∧ t = (c.info v).ty) ∧
+      (∀ k a, (k, a) ∈ (singleton c).inits → (singleton c).node.inputs.contains k = true →
+        ∃ v, (k, v) ∈ c.inPairs ∧ k = σ (nm (Ref.inp v)) ∧ (c.info v).val = some a) ∧
+      ((singleton c).graphInputs.map (fun p => p.1)).Nodup ∧
+      (singleton c).graphOutputs = c.outKeys ∧
+      (singleton c).opset = (c.sig.domain, c.sig.version) := by
+  have hkeys_in : (c.inPairs.map (fun p => p.1)).Nodup := by
+    have h := hwf.nodup
+    unfold Call.keys Call.items at h
+    rw [List.map_append, List.map_map] at h
+    exact (List.nodup_append.mp h).1
+  refine ⟨sigmaOf nm c, sigmaOf_empty nm c hg, ?_, node_alpha nm c hwf hg, rfl, ?_, ?_, ?_, ?_, ?_, rfl⟩
+  · intro r1 h1 r2 h2 h
+    rw [sigmaOf_nm nm c hg r1 h1, sigmaOf_nm nm c hg r2 h2] at h
+    exact singName_inj c hwf r1 r2 h1 h2 h
+  · intro k v hkv
+    have hr := inp_ref c k v hkv
+    obtain ⟨k1, hk1, hs1, hm1⟩ := singName_spec c _ hr
+    rw [sigmaOf_nm nm c hg _ hr, hs1]
+    have hm1' := (inp_mem_items c k1 v).mp hm1
+    refine ⟨List.mem_map.mpr ⟨(k1, v), hm1', rfl⟩, ?_⟩
+    intro a ha
+    exact List.mem_filterMap.mpr ⟨(k1, v), hm1', by simp [ha]⟩
+  · intro k t hkt hused
+    obtain ⟨p, hp, he⟩ := List.mem_map.mp hkt
+    simp only [Prod.mk.injEq] at he
+    obtain ⟨rfl, rfl⟩ := he
+    have hu := key_used_iff c hwf p.1 p.2 hp
+    simp only [Sing.singleton] at hused
+    rw [hused] at hu
+    have hf : firstKey c.items (Ref.inp p.2) = some p.1 := by simpa using hu.symm
+    refine ⟨p.2, hp, ?_, rfl⟩
+    rw [sigmaOf_nm nm c hg _ (inp_ref c p.1 p.2 hp)]
+    exact ((first_iff c hwf p.1 _ ((inp_mem_items c p.1 p.2).mpr hp)).mp hf).symm
+  · intro k a hka hused
+    obtain ⟨p, hp, he⟩ := List.mem_filterMap.mp hka
+    cases hv : (c.info p.2).val with
+    | none => simp [hv] at he
+    | some a' =>
+      simp only [hv, Option.map_some, Option.some.injEq, Prod.mk.injEq] at he
+      obtain ⟨rfl, rfl⟩ := he
+      have hu := key_used_iff c hwf p.1 p.2 hp
+      simp only [Sing.singleton] at hused
+      rw [hused] at hu
+      have hf : firstKey c.items (Ref.inp p.2) = some p.1 := by simpa using hu.symm
+      refine ⟨p.2, hp, ?_, hv⟩
+      rw [sigmaOf_nm nm c hg _ (inp_ref c p.1 p.2 hp)]
+      exact ((first_iff c hwf p.1 _ ((inp_mem_items c p.1 p.2).mpr hp)).mp hf).symm
+  · simp only [Sing.singleton, List.map_map]
+    exact hkeys_in
+  · simp only [Sing.singleton]
+    exact outPairs_fst c
+
+/-- the two naming loops of `to_singleton_onnx_model` never hit `ScopeError` -/
+theorem singleton_scope_no_clash (c : Call) (hwf : WF c) : scopeClash c.items [] = false :=
+  scopeClash_false c.items [] hwf.nodup (by intro e he; cases he)
+
+/-- **positional emission** (`Node.to_onnx`): under any scope the emitted input list is a prefix of
+    the positional list (slot k still holds argument k, omitted inner optionals stay as `""`), what
+    was dropped are only trailing `""`, and never below `min_input`. -/
+theorem emit_positional (nm : Ref → String) (c : Call) :
+    (emitNode nm c).inputs <+: c.flat.map (fun p => optName nm p.2) ∧
+    (∃ k, c.flat.map (fun p => optName nm p.2) = (emitNode nm c).inputs ++ List.replicate k "") ∧
+    (c.sig.minInput ≤ c.flat.length → c.sig.minInput ≤ (emitNode nm c).inputs.length) := by
+  simp only [emitNode, trim]
+  refine ⟨?_, ?_, ?_⟩
+  · have := trimRev_suffix c.sig.minInput (c.flat.map (fun p => optName nm p.2)).reverse
+    simpa using List.reverse_prefix.mpr this
+  · obtain ⟨k, hk⟩ := trimRev_dropped c.sig.minInput (c.flat.map (fun p => optName nm p.2)).reverse
+    refine ⟨k, ?_⟩
+    have := congrArg List.reverse hk
+    simpa using this
+  · intro h
+    have := trimRev_min c.sig.minInput (c.flat.map (fun p => optName nm p.2)).reverse (by simpa using h)
+    simpa using this
+
+/-- `untyped_input_no_check`: when some present input has no type the judgement is not consulted
+    and every output Var stays untyped. -/
+theorem untyped_input_no_check (c : Call) (hk : kindsOk c.sig.inputs c.args = true)
+    (hu : anyUntyped c = true) (Infer : InferFn) :
+    construct Infer c = .ok (c.outKeys.map (fun k => (k, none))) := by
+  simp [construct, hk, hu]
+
+/-! ### Eager agreement with the judgement -/
+
+/-- What is assumed of ONNX's judgement (never proved here; observed by the model-free oracle, which
+    writes the node with its own names and without unused inputs): it does not depend on the value
+    names, it ignores graph inputs / initializers the node does not read, and it types exactly the
+    graph outputs it was given. -/
+structure InferOK (Infer : InferFn) : Prop where
+  rename : ∀ (σ : String → String) (m : OneNodeModel),
+    σ "" = "" →
+    (∀ a ∈ namesOf m, σ a = "" → a = "") →
+    (∀ a ∈ namesOf m, ∀ b ∈ namesOf m, σ a = σ b → a = b) →
+    Infer (renameModel σ m) = (Infer m).map (fun res => res.map (fun p => (σ p.1, p.2)))
+  unused : ∀ m, Infer (prune m) = Infer m
+  outs : ∀ m res, Infer m = some res → res.map (fun p => p.1) = m.graphOutputs
+
+theorem sigma_inj_on_hand (nm : Ref → String) (c : Call) (hwf : WF c) (hg : GoodNames nm c) :
+    (∀ a ∈ namesOf (handModel nm c), sigmaOf nm c a = "" → a = "") ∧
+    (∀ a ∈ namesOf (handModel nm c), ∀ b ∈ namesOf (handModel nm c),
+      sigmaOf nm c a = sigmaOf nm c b → a = b) := by
+  have hz := sigmaOf_empty nm c hg
+  constructor
+  · intro a ha h
+    rcases names_hand nm c a ha with rfl | ⟨r, hr, rfl⟩
+    · rfl
+    · rw [sigmaOf_nm nm c hg r hr] at h
+      exact absurd h (singName_ne c hwf r hr)
+  · intro a ha b hb h
+    rcases names_hand nm c a ha with rfl | ⟨r1, hr1, rfl⟩ <;>
+      rcases names_hand nm c b hb with rfl | ⟨r2, hr2, rfl⟩
+    · rfl
+    · rw [hz, sigmaOf_nm nm c hg r2 hr2] at h
+      exact absurd h.symm (singName_ne c hwf r2 hr2)
+    · rw [hz, sigmaOf_nm nm c hg r1 hr1] at h
+      exact absurd h (singName_ne c hwf r1 hr1)
+    · rw [sigmaOf_nm nm c hg r1 hr1, sigmaOf_nm nm c hg r2 hr2] at h
+      rw [singName_inj c hwf r1 r2 hr1 hr2 h]
+
+/-- what the judgement answers on the singleton model is its answer on the hand-built model,
+    with the output names mapped to the field keys -/
+theorem infer_singleton (Infer : InferFn) (hI : InferOK Infer) (nm : Ref → String) (c : Call)
+    (hwf : WF c) (hg : GoodNames nm c) :
+    Infer (singleton c) =
+      (Infer (handModel nm c)).map (fun res => res.map (fun p => (sigmaOf nm c p.1, p.2))) := by
+  obtain ⟨h0, hinj⟩ := sigma_inj_on_hand nm c hwf hg
+  rw [← hI.unused, singleton_prune_eq nm c hwf hg,
+    hI.rename _ _ (sigmaOf_empty nm c hg) h0 hinj]
+
+/-- **eager_agrees**: for every judgement invariant under injective renaming (and blind to unread
+    inputs), a well-kinded call with all present inputs typed raises at the call exactly when the
+    judgement rejects *the hand-built node* — same operator, same input types at the same positions
+    (`""` for omitted optionals), same attributes, known constants as initializers — and otherwise
+    every output Var carries `stripUnk` of the type the judgement assigned to the output at its
+    position. `nm` is any good naming: the hand-built node may name its values as it likes. -/
+theorem eager_agrees (Infer : InferFn) (hI : InferOK Infer) (nm : Ref → String) (c : Call)
+    (hwf : WF c) (hg : GoodNames nm c)
+    (hk : kindsOk c.sig.inputs c.args = true) (ht : anyUntyped c = false) :
+    ((∃ e, construct Infer c = .error e) ↔ Infer (handModel nm c) = none) ∧
+    (Infer (handModel nm c) = none → construct Infer c = .error .inference) ∧
+    (∀ res, Infer (handModel nm c) = some res →
+      construct Infer c = .ok (c.outPairs.map (fun p =>
+        (p.1, (lookupTy (nm (Ref.out p.2)) res).map stripUnk)))) := by
+  have hS := infer_singleton Infer hI nm c hwf hg
+  have hsome : ∀ res, Infer (handModel nm c) = some res →
+      construct Infer c = .ok (c.outPairs.map (fun p =>
+        (p.1, (lookupTy (nm (Ref.out p.2)) res).map stripUnk))) := by
+    intro res hres
+    rw [hres] at hS
+    simp only [construct, hk, ht, hS, Option.map_some]
+    simp only [Bool.not_true, Bool.false_eq_true, if_false]
+    congr 1
+    rw [← outPairs_fst c, List.map_map]
+    apply List.map_congr_left
+    intro p hp
+    simp only [Function.comp]
+    congr 2
+    have hr := out_ref c p.1 p.2 hp
+    have hname : p.1 = sigmaOf nm c (nm (Ref.out p.2)) := by
+      rw [sigmaOf_nm nm c hg _ hr]; exact (singName_out c p.1 p.2 hp).symm
+    rw [hname]
+    apply lookupTy_rename
+    intro b hb h
+    have houts := hI.outs _ res hres
+    rw [houts] at hb
+    obtain ⟨_, hinj⟩ := sigma_inj_on_hand nm c hwf hg
+    have hbn : b ∈ namesOf (handModel nm c) := by
+      unfold namesOf; exact List.mem_append_right _ hb
+    have han : nm (Ref.out p.2) ∈ namesOf (handModel nm c) := by
+      unfold namesOf
+      apply List.mem_append_right
+      exact List.mem_map.mpr ⟨p, hp, rfl⟩
+    exact hinj b hbn _ han h
+  have hnone : Infer (handModel nm c) = none → construct Infer c = .error .inference := by
+    intro hres
+    rw [hres] at hS
+    simp [construct, hk, ht, hS]
+  refine ⟨?_, hnone, hsome⟩
+  constructor
+  · rintro ⟨e, he⟩
+    cases hres : Infer (handModel nm c) with
+    | none => rfl
+    | some res => rw [hsome res hres] at he; cases he
+  · intro hres
+    exact ⟨_, hnone hres⟩
+
+/-- **result_mapping_bijective**: results are mapped back by output *name*; because the output
+    names of the singleton model are the pairwise distinct field keys, this is the same as mapping
+    by position — the i-th output field receives the type of the i-th graph output, for any number
+    of outputs (TopK, Split, LSTM ...). -/
+theorem result_mapping_bijective (c : Call) (hwf : WF c) (res : List (String × Option Ty))
+    (hres : res.map (fun p => p.1) = (singleton c).graphOutputs) :
+    c.outKeys.map (fun k => lookupTy k res) = res.map (fun p => p.2) := by
+  have hout : (singleton c).graphOutputs = c.outKeys := outPairs_fst c
+  have hnd : c.outKeys.Nodup := by
+    have h := hwf.nodup
+    unfold Call.keys Call.items at h
+    rw [List.map_append, List.map_map, List.map_map] at h
+    have h2 := (List.nodup_append.mp h).2.1
+    have : (List.map ((fun p => p.1) ∘ fun (p : String × Nat) => (p.1, Ref.out p.2)) c.outPairs)
+        = c.outKeys := by
+      rw [← outPairs_fst c]; rfl
+    rw [this] at h2
+    exact h2
+  rw [hout] at hres
+  rw [← hres]
+  apply lookupTy_by_position
+  rw [hres]
+  exact hnd
+
+/-- **stripUnk_weakens**: stripping the invented `unk__*` dimension names only forgets dimensions:
+    constructor, element type and rank are kept, every kept dimension is unchanged. -/
+theorem stripUnk_weakens (t : Ty) : Weaker (stripUnk t) t := by
+  induction t with
+  | tensor e sh =>
+    cases sh with
+    | none => exact .tensorNone e
+    | some s => exact .tensorSome e _ _ (stripShape_weaker s)
+  | seq t ih => exact .seq ih
+  | opt t ih => exact .opt ih
+
+theorem stripUnk_idem (t : Ty) : stripUnk (stripUnk t) = stripUnk t := by
+  induction t with
+  | tensor e sh =>
+    cases sh with
+    | none => rfl
+    | some s =>
+      simp only [stripUnk, Option.map_some, List.map_map]
+      congr 2
+      apply List.map_congr_left
+      intro d _
+      exact stripDim_idem d
+  | seq t ih => simp [stripUnk, ih]
+  | opt t ih => simp [stripUnk, ih]
+
+/-- a type without invented dimension names (in particular: with the user's own symbolic
+    dimensions) comes through unchanged -/
+theorem stripUnk_keeps (t : Ty) (h : tyInvented t = false) : stripUnk t = t := by
+  induction t with
+  | tensor e sh =>
+    cases sh with
+    | none => rfl
+    | some s =>
+      simp only [tyInvented, List.any_eq_false] at h
+      simp only [stripUnk, Option.map_some]
+      congr 2
+      conv => rhs; rw [← List.map_id s]
+      apply List.map_congr_left
+      intro d hd
+      exact stripDim_id d (by simpa using h d hd)
+  | seq t ih => simp only [tyInvented] at h; simp [stripUnk, ih h]
+  | opt t ih => simp only [tyInvented] at h; simp [stripUnk, ih h]
+
+/-- the `TypeError` of `BaseVars.__post_init__` is raised exactly for ill-kinded argument lists, before
+    (and independently of) any inference -/
+theorem kind_error_iff (Infer : InferFn) (c : Call) :
+    construct Infer c = .error .kind ↔ kindsOk c.sig.inputs c.args = false := by
+  unfold construct
+  cases hk : kindsOk c.sig.inputs c.args with
+  | false => simp
+  | true =>
+    simp only [Bool.not_true, Bool.false_eq_true, if_false]
+    cases hu : anyUntyped c with
+    | true => simp
+    | false =>
+      simp only [Bool.false_eq_true, if_false]
+      cases Infer (Sing.singleton c) with
+      | none => simp
+      | some res => simp
+
+/-- **supplemented_rejects_more**: an operator whose override runs the standard routine first
+    (Compress, Loop — checked on every run: the inference request is observed) rejects at least what
+    the standard constructor rejects, whatever its own rules are. (The ml operators do *not* have this
+    shape on the pinned tree: they replace the judgement — known findings.) -/
+theorem supplemented_rejects_more (Infer : InferFn)
+    (own : Call → List (String × Option Ty) → Except Err (List (String × Option Ty))) (c : Call)
+    (h : ∃ e, construct Infer c = .error e) : ∃ e, constructSupplemented Infer own c = .error e := by
+  obtain ⟨e, he⟩ := h
+  exact ⟨e, by simp [constructSupplemented, he]⟩
+
+/-! ### Non-vacuity -/
+
+/-- good namings exist for every call, so `singleton_alpha` / `eager_agrees` speak about every call -/
+theorem goodNames_exist (c : Call) : ∃ nm, GoodNames nm c := ⟨tallyNames, goodNames_tally c⟩
+
+/-- naming-free corollary: accept/reject of the constructor is accept/reject of the judgement on the
+    canonical hand-built model, for every well-formed, well-kinded, fully typed call -/
+theorem eager_agrees_canonical (Infer : InferFn) (hI : InferOK Infer) (c : Call) (hwf : WF c)
+    (hk : kindsOk c.sig.inputs c.args = true) (ht : anyUntyped c = false) :
+    ((∃ e, construct Infer c = .error e) ↔ Infer (handModel tallyNames c) = none) :=
+  (eager_agrees Infer hI tallyNames c hwf (goodNames_tally c) hk ht).1
+
+deriving instance DecidableEq for Except
+
+/-- the hypotheses on the judgement are satisfiable: by a judgement that accepts everything … -/
+theorem inferOK_accept : InferOK (fun m => some (m.graphOutputs.map (fun k => (k, none)))) where
+  rename := by intro σ m _ _ _; simp [renameModel, List.map_map, Function.comp]
+  unused := by intro m; rfl
+  outs := by
+    intro m res h
+    simp only [Option.some.injEq] at h
+    rw [← h, List.map_map]
+    exact List.map_id' _
+
+/-- … and by one that rejects everything -/
+theorem inferOK_reject : InferOK (fun _ => none) where
+  rename := by intro σ m _ _ _; rfl
+  unused := by intro m; rfl
+  outs := by intro m res h; cases h
+
+def f32 (s : List Dim) : Ty := .tensor 1 (some s)
+
+def clipSig : Sig :=
+  { op := "Clip", domain := "", version := 13,
+    inputs := [⟨"input", .single⟩, ⟨"min", .optional⟩, ⟨"max", .optional⟩],
+    outputs := [⟨"output", .single⟩], minInput := 1, minOutput := 1 }
+
+/-- `clip(x, max=const)` — the middle optional omitted -/
+def clipCall : Call :=
+  { sig := clipSig, args := [.var 0, .none, .var 1], attrs := [], outVariadic := 0
+    info := fun v => if v = 0 then ⟨some (f32 [.const 2, .const 3]), none⟩
+                     else ⟨some (f32 []), some "1:[]:c0ffee"⟩ }
+
+example : WF clipCall := (wfB_iff _).mp (by decide)
+example : (singleton clipCall).node.inputs = ["input", "", "max"] := by decide
+example : (singleton clipCall).inits = [("max", "1:[]:c0ffee")] := by decide
+example : (handModel (fun r => match r with | .inp v => "i" ++ toString v | .out i => "o" ++ toString i)
+    clipCall).node.inputs = ["i0", "", "i1"] := by decide
+/-- both optionals omitted: trimmed down to `min_input` -/
+example : (singleton { clipCall with args := [.var 0, .none, .none] }).node.inputs = ["input"] := by decide
+
+def concatSig : Sig :=
+  { op := "Concat", domain := "", version := 13, inputs := [⟨"inputs", .variadic⟩],
+    outputs := [⟨"concat_result", .single⟩], minInput := 1, minOutput := 1 }
+
+def concatCall : Call :=
+  { sig := concatSig, args := [.list [0, 1, 0]], attrs := [("axis", some "a0")], outVariadic := 0
+    info := fun _ => ⟨some (f32 [.const 2, .sym "N"]), none⟩ }
+
+example : WF concatCall := (wfB_iff _).mp (by decide)
+/-- variadic flattened as `field_i`; Var 0 passed twice keeps its first key; `inputs_2` is an unread graph input -/
+example : (singleton concatCall).node.inputs = ["inputs_0", "inputs_1", "inputs_0"] := by decide
+example : (singleton concatCall).graphInputs.map (fun p => p.1) = ["inputs_0", "inputs_1", "inputs_2"] := by decide
+example : (prune (singleton concatCall)).graphInputs.map (fun p => p.1) = ["inputs_0", "inputs_1"] := by decide
+example : (singleton concatCall).node.attrs = [("axis", "a0")] := by decide
+
+def topkSig : Sig :=
+  { op := "TopK", domain := "", version := 11, inputs := [⟨"X", .single⟩, ⟨"K", .single⟩],
+    outputs := [⟨"Values", .single⟩, ⟨"Indices", .single⟩], minInput := 2, minOutput := 2 }
+
+def topkCall : Call :=
+  { sig := topkSig, args := [.var 0, .var 1], attrs := [("axis", some "m1"), ("largest", some "1"), ("sorted", some "1")]
+    outVariadic := 0
+    info := fun v => if v = 0 then ⟨some (f32 [.const 2, .const 5]), none⟩
+                     else ⟨some (.tensor 7 (some [.const 1])), some "7:[1]:2"⟩ }
+
+/-- a judgement answering as ONNX does for TopK with K = 2 (second dimension invented) -/
+def topkInfer : InferFn := fun m =>
+  match m.graphOutputs with
+  | [a, b] => some [(a, some (f32 [.const 2, .sym "unk__0"])), (b, some (.tensor 7 (some [.const 2, .sym "unk__0"])))]
+  | _ => none
+
+example : WF topkCall := (wfB_iff _).mp (by decide)
+/-- two outputs, each receives its own type, the invented dimension reported as unknown -/
+example : construct topkInfer topkCall =
+    .ok [("Values", some (f32 [.const 2, .unk])), ("Indices", some (.tensor 7 (some [.const 2, .unk])))] := by
+  decide
+/-- rejection surfaces at the call -/
+example : construct (fun _ => none) topkCall = .error .inference := by decide
+/-- an untyped input: no check, untyped outputs — even with a judgement that would reject -/
+example : construct (fun _ => none) { topkCall with info := fun _ => ⟨none, none⟩ }
+    = .ok [("Values", none), ("Indices", none)] := by decide
+/-- kind error: `None` passed for a required input -/
+example : construct topkInfer { topkCall with args := [.var 0, .none] } = .error .kind := by decide
+
+def addSig : Sig :=
+  { op := "Add", domain := "", version := 14, inputs := [⟨"A", .single⟩, ⟨"B", .single⟩],
+    outputs := [⟨"C", .single⟩], minInput := 2, minOutput := 1 }
+
+/-- `add(x, x)`: one Var in two slots -/
+def addCall : Call :=
+  { sig := addSig, args := [.var 7, .var 7], attrs := [], outVariadic := 0
+    info := fun _ => ⟨some (f32 [.sym "N"]), none⟩ }
+
+example : WF addCall := (wfB_iff _).mp (by decide)
+example : (singleton addCall).node.inputs = ["A", "A"] := by decide
+example : (singleton addCall).graphInputs = [("A", some (f32 [.sym "N"])), ("B", some (f32 [.sym "N"]))] := by decide
+example : prune (singleton addCall) =
+    renameModel (fun s => if s = "x" then "A" else if s = "y" then "C" else s)
+      (handModel (fun r => match r with | .inp _ => "x" | .out _ => "y") addCall) := by decide
+example : (singleton addCall).opset = ("", 14) := by decide
+
+example : stripUnk (.seq (f32 [.sym "N", .sym "unk__12", .const 3])) = .seq (f32 [.sym "N", .unk, .const 3]) := by
+  decide
+
+end C05
